@@ -266,8 +266,18 @@ func ReadMetricNames(filePath string) (map[string]bool, error) {
 	metricNames := make(map[string]bool)
 
 	for i := 0; i < len(buf); {
+		if len(buf[i:]) < 2 {
+			log.Errorf("ReadMetricNames: expected at least 2 more bytes for metric name length, got %d more bytes; file=%v, offset=%d",
+				len(buf[i:]), filePath, i)
+			return nil, fmt.Errorf("ReadMetricNames: bad data in file %v", filePath)
+		}
 		metricNameLen := int(utils.BytesToUint16LittleEndian(buf[i : i+2]))
 		i += 2
+		if len(buf[i:]) < metricNameLen {
+			log.Errorf("ReadMetricNames: expected at least %d more bytes for metric name, got %d more bytes; file=%v, offset=%d",
+				metricNameLen, len(buf[i:]), filePath, i)
+			return nil, fmt.Errorf("ReadMetricNames: bad data in file %v", filePath)
+		}
 		metricName := string(buf[i : i+metricNameLen])
 		i += metricNameLen
 		metricNames[metricName] = true
